@@ -115,12 +115,6 @@ func (c *C) wrapClientErr(err error, serverName string) error {
 			msg = serverName + " said: " + err.Message
 		}
 
-		if err.Code == 552 {
-			err.Code = 452
-			err.EnhancedCode[0] = 4
-			c.Log.Msg("SMTP code 552 rewritten to 452 per RFC 5321 Section 4.5.3.1.10")
-		}
-
 		return &exterrors.SMTPError{
 			Code:         err.Code,
 			EnhancedCode: exterrors.EnhancedCode(err.EnhancedCode),
@@ -403,6 +397,13 @@ func (c *C) Rcpt(ctx context.Context, to string, opts smtp.RcptOptions) error {
 	}
 
 	if err := c.cl.Rcpt(wireTo, outOpts); err != nil {
+		// "Too many recipients". As a reply to other commands (message is too
+		// big, etc) 552 is a permanent failure and is left as is.
+		if smtpErr, ok := err.(*smtp.SMTPError); ok && smtpErr.Code == 552 {
+			smtpErr.Code = 452
+			smtpErr.EnhancedCode[0] = 4
+			c.Log.Msg("SMTP code 552 rewritten to 452 per RFC 5321 Section 4.5.3.1.10")
+		}
 		return c.wrapClientErr(err, c.serverName)
 	}
 
